@@ -36,7 +36,7 @@ type FuncContract struct {
 	ModSrc      []string
 	ModDeclared bool
 	Safe        bool
-	Trusted     bool   // contract assumed; body not verified
+	Trusted     bool // contract assumed; body not verified
 	TrustReason string
 	Loops       map[int][]Clause
 	CallAsserts map[string][]Clause // key "callee#k"
